@@ -144,6 +144,32 @@ pub fn known_region(env: &Env, exp: &Ty, wire: &Ty, map_type: bool, depth: usize
     }
 }
 
+/// Does some vector hold two key/value pairs with the same key and different values?
+fn conflicting_keys(v: &RVal) -> bool {
+    match v {
+        RVal::Opt(Some(x)) => conflicting_keys(x),
+        RVal::Vec(vs) => {
+            let pair = |r: &RVal| -> Option<(RVal, RVal)> {
+                match r {
+                    RVal::Record(fs) if fs.len() == 2 && fs[0].0 == 0 && fs[1].0 == 1 => Some((fs[0].1.clone(), fs[1].1.clone())),
+                    _ => None,
+                }
+            };
+            for (i, x) in vs.iter().enumerate() {
+                if let Some((k, val)) = pair(x) {
+                    if vs[i + 1..].iter().filter_map(pair).any(|(k2, v2)| k2 == k && v2 != val) {
+                        return true;
+                    }
+                }
+            }
+            vs.iter().any(conflicting_keys)
+        }
+        RVal::Record(fs) => fs.iter().any(|(_, x)| conflicting_keys(x)),
+        RVal::Variant(_, x) => conflicting_keys(x),
+        _ => false,
+    }
+}
+
 /// Remove duplicate elements (duplicate keys for key/value pairs) from every vector.
 fn dedup(v: &RVal) -> RVal {
     match v {
@@ -488,7 +514,15 @@ fn judge_in(ops: &dyn TypeOps, bytes: &[u8], wire_desc: &str, relation: &'static
                 if tags.contains(&"bounded") && !within_bounds(tags, u) {
                     return Outcome::Fail(Failure::new(format!("bounded-vec:accepted-beyond-limits:{}", ops.name()), describe()));
                 }
-                let same = if unordered { sort_vecs(&n.wire) == sort_vecs(u) } else { n.wire == *u };
+                // A set or map keeps one element per key. Elements that differ on the wire
+                // only in parts the expected type drops coincide after coercion, so for
+                // unordered containers both sides are compared as sets at every vector
+                // level; two entries with one key and different values (which of them a map
+                // keeps is an implementation choice) are not compared.
+                if unordered && conflicting_keys(u) {
+                    return Outcome::Skip("duplicate-keys-with-different-values-after-coercion");
+                }
+                let same = if unordered { sort_vecs(&dedup(&n.wire)) == sort_vecs(&dedup(u)) } else { n.wire == *u };
                 if !same && region == Some("excluded-known:C08-tuple-needs-tuple-wire") {
                     return Outcome::Fail(Failure::new("tuple-native-rejects-wire-record-that-is-not-a-tuple", describe()));
                 }
